@@ -255,15 +255,6 @@ def _onboard(run, F, PV):
     sl = run.P.enum_members(P.cls("ledger.hsm2dongle._Onboarding"))["SEED_LENGTH"].value
     run.check("R1", ss == 32 and sl == 32, "SEED_SIZE == SEED_LENGTH == 32", key="SEED_SIZE|value", where="middleware/admin/onboard.py",
               message=f"SEED_SIZE={ss}, ONBOARDING.SEED_LENGTH={sl}")
-    # confirmation loop: only normal exit is the yes-break; other exit raises
-    loops = [n for n in ast.walk(fn.node) if isinstance(n, ast.While)]
-    run.check("R1", len(loops) == 1, "one confirmation loop", key=f"{fn.qualname}|confirm-loop", where=fn.loc(),
-              message=f"{len(loops)} while loops in do_onboard")
-    for w in loops:
-        brks = [n for n in ast.walk(w) if isinstance(n, ast.Break)]
-        run.check("R1", len(brks) == 1 and isinstance(w.test, ast.Constant) and w.test.value is True,
-                  "the loop leaves only through one break", key=f"{fn.qualname}|confirm-loop|exits", where=fn.loc(w),
-                  message="the confirmation loop has more than one way out")
     # reachability with all preconditions true (R5)
     reach = g.reachable(g.entry, edge_ok=lambda a, b: not g.is_exc_edge(a, b))
     run.check("R1", all(cn in reach for cn in g.nodes_of(call)), "onboard is carried out when preconditions hold",
